@@ -234,6 +234,11 @@ fn show_ops(ops: &[Op]) -> String { ops.iter().map(|o| o.show()).collect::<Vec<_
 
 struct Built { zone: Zone, errs: Vec<String> }
 
+/// Serial (token) of the zone's SOA, if it has one.
+fn soa_tok(z: &Flat) -> Option<u32> {
+    z.m.get(&(Rel::apex(), T_SOA)).and_then(|(_, rds)| rds.iter().next().and_then(|rd| if let Rd::Tok(t) = rd { Some(*t) } else { None }))
+}
+
 fn soa_rec(tok: u32) -> Rec { Rec { owner: Rel::apex(), rtype: T_SOA, ttl: 60, rd: Rd::Tok(tok) } }
 
 async fn node_at(root: &Box<dyn WritableZoneNode>, path: &Rel) -> Option<Box<dyn WritableZoneNode>> {
@@ -625,7 +630,8 @@ fn replay(ops: &[Op]) -> Replayed {
             Op::UAdd(r) => { if !fin { if let Some(w) = work.as_mut() { w.0.add(r); } } }
             Op::UDel(r) => { if !fin { if let Some(w) = work.as_mut() { w.0.del(r); } } }
             Op::UDelAll => { if !fin { if let Some(w) = work.as_mut() { w.0 = Flat::default(); w.1.clear(); } } }
-            Op::UBatchDel(_) => { if !fin { if let Some(w) = work.as_ref() { comm = w.0.clone(); sh = w.1.clone(); } } }
+            // BeginBatchDelete commits only if its SOA has the serial of the working copy (else SoaMismatch)
+            Op::UBatchDel(t) => { if !fin { if let Some(w) = work.as_ref() { if soa_tok(&w.0) == Some(*t) { comm = w.0.clone(); sh = w.1.clone(); } } } }
             Op::UBatchAdd(t) => { if !fin { if let Some(w) = work.as_mut() { w.0.m.remove(&(Rel::apex(), T_SOA)); w.0.add(&soa_rec(*t)); } } }
             Op::UFin(t) => { if !fin { if let Some(mut w) = work.take() { w.0.m.remove(&(Rel::apex(), T_SOA)); w.0.add(&soa_rec(*t)); comm = w.0; sh = w.1; } fin = true; } }
             Op::UDrop | Op::WDrop => { work = None; fin = false; }
@@ -875,7 +881,14 @@ fn gen_updater_history(r: &mut Rng, start: &Flat, target: &Flat) -> (Vec<Op>, Fl
     for i in (1..dels.len()).rev() { let j = r.below(i as u64 + 1) as usize; dels.swap(i, j); }
     for i in (1..adds.len()).rev() { let j = r.below(i as u64 + 1) as usize; adds.swap(i, j); }
     for d in dels { ops.push(Op::UDel(d.clone())); cur.del(&d); }
-    if r.chance(1, 3) { ops.push(Op::UBatchDel(tok)); tok += 1; committed = cur.clone(); }
+    if r.chance(1, 3) {
+        // mostly the SOA of the version being edited, sometimes a wrong one (rejected: SoaMismatch, nothing committed)
+        let right = soa_tok(&cur);
+        let t = if r.chance(1, 5) || right.is_none() { tok } else { right.unwrap() };
+        tok += 1;
+        ops.push(Op::UBatchDel(t));
+        if right == Some(t) { committed = cur.clone(); }
+    }
     for a in adds { ops.push(Op::UAdd(a.clone())); cur.add(&a); }
     // final SOA: the target's SOA (or a fresh one when the target has none -- then target gets it too)
     let soa_tok = target.m.get(&(Rel::apex(), T_SOA)).and_then(|(_, rds)| rds.iter().next().cloned());
@@ -920,7 +933,12 @@ fn gen_safe_delta_history(r: &mut Rng, start: &Flat) -> (Vec<Op>, Flat) {
             let rec = r.pick(&cands).clone();
             ops.push(Op::UDel(rec.clone())); cur.del(&rec);
         }
-        if r.chance(1, 5) { ops.push(Op::UBatchDel(tok)); tok += 1; }
+        if r.chance(1, 5) {
+            let right = soa_tok(&cur);
+            let t = if r.chance(1, 5) || right.is_none() { tok } else { right.unwrap() };
+            tok += 1;
+            ops.push(Op::UBatchDel(t));
+        }
     }
     let st = match cur.m.get(&(Rel::apex(), T_SOA)).and_then(|(_, rds)| rds.iter().next().cloned()) { Some(Rd::Tok(t)) => t, _ => tok };
     cur.m.remove(&(Rel::apex(), T_SOA));
@@ -1141,6 +1159,31 @@ fn main() {
         let mut z = Flat::default(); z.add(&rec("@", T_SOA, 60, "1"));
         let rz = cx.run(&[Op::ZRec(rec("@", T_SOA, 60, "1"))]).map(|b| b.zone);
         cx.eval("corpus_rollback", &ops, Some(&z), &[(p("ghost.www"), T_A), (p("www"), T_A), (p("zz"), T_A)], rz.as_ref());
+    }
+    // BeginBatchDelete: commits only with the SOA of the version being edited
+    {
+        let pre = vec![rec("@", T_SOA, 60, "1"), rec("www", T_A, 101, "4")];
+        let z0: Vec<Op> = pre.iter().cloned().map(Op::ZRec).collect();
+        let qs3 = [(p("x"), T_A), (p("y"), T_A), (p("www"), T_A), (p("@"), T_SOA)];
+        // matching serial: the first batch is published, the dropped rest is not
+        let mut ops = z0.clone();
+        ops.extend([Op::UNew, Op::UAdd(rec("x", T_A, 101, "5")), Op::UBatchDel(1), Op::UAdd(rec("y", T_A, 101, "6")), Op::UDrop]);
+        let mut z = Flat::default(); for x in &pre { z.add(x); } z.add(&rec("x", T_A, 101, "5"));
+        cx.eval("corpus_batch_match", &ops, Some(&z), &qs3, None);
+        // wrong serial: SoaMismatch, nothing is published
+        let mut ops = z0.clone();
+        ops.extend([Op::UNew, Op::UAdd(rec("x", T_A, 101, "5")), Op::UBatchDel(9), Op::UAdd(rec("y", T_A, 101, "6")), Op::UDrop]);
+        let mut z = Flat::default(); for x in &pre { z.add(x); }
+        cx.eval("corpus_batch_mismatch", &ops, Some(&z), &qs3, None);
+        // the serial is that of the working copy (after BeginBatchAdd), not of the published version
+        let mut ops = z0.clone();
+        ops.extend([Op::UNew, Op::UBatchAdd(2), Op::UAdd(rec("x", T_A, 101, "5")), Op::UBatchDel(1), Op::UBatchDel(2), Op::UAdd(rec("y", T_A, 101, "6")), Op::UDrop]);
+        let mut z = Flat::default(); z.add(&rec("@", T_SOA, 60, "2")); z.add(&pre[1]); z.add(&rec("x", T_A, 101, "5"));
+        cx.eval("corpus_batch_working_serial", &ops, Some(&z), &qs3, None);
+        // a zone without SOA never matches
+        let ops = vec![Op::ZRec(rec("www", T_A, 101, "4")), Op::UNew, Op::UAdd(rec("x", T_A, 101, "5")), Op::UBatchDel(1), Op::UDrop];
+        let mut z = Flat::default(); z.add(&pre[1]);
+        cx.eval("corpus_batch_no_soa", &ops, Some(&z), &qs3, None);
     }
     // updates that keep the tree canonical answer like the rebuilt zone
     {
